@@ -69,8 +69,10 @@ def run(c, prog, ctx):
         effs = [(e["callee"], tuple(show(a, -30) for a in e.get("args", ()))) for e in effects(f.body) if e["kind"] == "mutarg"]
         sh[owner] = (ret, tuple(effs))
         ENG = "hashes::Sha256d::engine()"
-        ok = (re.sub(r"@engine#\d+", "", ret) == "hashes::Sha256d::from_engine(%s)" % ENG
-              and [(cn, tuple(re.sub(r"@engine#\d+", "", a) for a in args)) for cn, args in effs] == [("encode::Encodable::consensus_encode", ("arg1", ENG))])
+        ok = ((re.sub(r"@engine#\d+", "", ret) == "hashes::Sha256d::from_engine(%s)" % ENG
+               and [(cn, tuple(re.sub(r"@engine#\d+", "", a) for a in args)) for cn, args in effs] == [("encode::Encodable::consensus_encode", ("arg1", ENG))])
+              # the same function written through the one-shot helpers
+              or (ret == "hashes::Sha256d::hash(encode::serialize(arg1))" and not effs))
         c.inst("R1.serialize-hash", owner, ok, "sha256d engine fed exactly once with consensus_encode(obj): returns %s, engine writes %s" % (ret, effs), f.where(), f.path)
     # wrapper views
     for w in ("dynafed::ElidedRoot", "dynafed::ParamsRoot", "block::DynafedRoot"):
@@ -111,6 +113,10 @@ def run(c, prog, ctx):
             continue
         v = show(p._rvalue(pay["rv"], True) if kind == "assign" else p._call(pay, True), -30)
         lab = [l for d, l in cond_desc(b, g.conds(bi)) if d == "dynafed::Params::is_null(arg1)"]
+        if not lab:
+            # `if let Params::Null = self` / `match self` instead of the predicate
+            dl = [l for d, l in cond_desc(b, g.conds(bi)) if d == "discr(arg1)"]
+            lab = ["true" if l == "Null" else "false" for l in dl[:1]]
         rows[lab[0] if lab else "?"] = v[:80]
     c.inst("R4.null-root", "is_null() => all-zero root, decided before any hashing", rows.get("true", "").startswith("dynafed::ParamsRoot::from_byte_array(repeat(('const', 'u8', 0), '32'))") and "false" in rows,
            "rows %s" % rows, fp.where(), fp.path)
